@@ -294,6 +294,17 @@ def run(ctx, rep):
                   and strip(cd.value[3]) == ('const', 3)]
             good = good and bool(eq)
         rep.check(good, 'R6', 'BuildpackVersion/three-parts', where, 'Ok only for exactly 3 components', 'a version with a component count other than 3 can be accepted')
+        # every component takes part in the decision: split('.') -> map(validate) -> collect::<Option<Vec<_>>>()
+        # (one invalid component rejects the whole string); adapters that silently drop or truncate components
+        # (map_while, filter_map, take_while, take, skip, flatten, ...) would accept "1.2.3.x" as 1.2.3
+        its = [c for c in tf.calls if c.decl and c.decl.startswith('std::iter::Iterator::')]
+        names = [c.decl.split('::')[-1] for c in its]
+        coll = [c for c in its if c.decl.endswith('::collect')]
+        all_or_nothing = names.count('map') == 1 and set(names) <= {'map', 'collect'} and len(coll) == 1 and \
+            'collect::<std::option::Option<std::vec::Vec<' in (coll[0].full or '')
+        rep.check(all_or_nothing, 'R6', 'BuildpackVersion/all-components', where, 'components: split -> map(validate) -> collect::<Option<Vec<_>>>: any invalid component rejects the version',
+                  'the component pipeline is %s%s: invalid or surplus components can be dropped instead of rejecting the version (e.g. "1.2.3.x" accepted as 1.2.3)'
+                  % (names, '' if not coll else ' collecting into ' + (coll[0].full or '').split('collect::')[-1][:60]))
         lz = False
         from .lib.mir import op_place
         for g in prog.closures_of(tf):
